@@ -76,6 +76,9 @@ func runC02(c *Ctx) {
 	c02R5(c, dv)
 	c.Rule("R6", "the verifier's visitor (and its siblings) hash a leaf from the node's value with the position salt on every return — never from the proof", 9)
 	histFormulas(c, "R6", buildHistRoles(c))
+	c.Rule("R7", "the client verifies the proof it received unmodified; a missing audit-path entry aborts the recomputation", 3)
+	proofNotModifiedBeforeVerify(c, "R7", []*ssa.Function{c.P.MustMethod("client", "HTTPClient", "MembershipAutoVerify"), c.P.MustMethod("client", "HTTPClient", "MembershipVerify")})
+	verifierMissAborts(c, "R7", buildHistRoles(c))
 }
 
 func sameBalloonPkg(p *Program) func(*ssa.Function) bool {
